@@ -297,6 +297,8 @@ func main() {
 		e1loops(pos[1], pos[2])
 	case "e1paramaborts":
 		e1paramaborts(pos[1])
+	case "e1unchecked":
+		e1unchecked(pos[1])
 	case "e1events":
 		e1events(pos[1], pos[2])
 	case "callees":
